@@ -589,21 +589,34 @@ func (g *gen) mkCatalog() {
 	for c := 1; c <= nCnr; c++ {
 		for id := 1; id <= nOID; id++ {
 			o := &Obj{C: c, ID: id, Exp: g.exp()}
-			// IDs 1..3 are mostly regular (the usual targets), the others mixed
+			// IDs 1..2 are mostly regular (the usual targets); 3..6 are a lock and a tombstone for each
+			// of them, so that lock / tombstone / expiry of the same target collide in every history;
+			// 7..8 are anything (locks of locks, tombstones of tombstones, ...)
 			k := g.r.n(100)
 			switch {
-			case id <= 3 && k < 80, id > 3 && k < 25:
+			case id <= 2 && k < 85, id > 6 && k < 30:
 				o.T = 0
 				o.Size = g.size()
+				if id <= 2 && g.r.p(55) {
+					o.Exp = int64(g.r.n(4)) // the target expires early in the history
+				}
+			case id == 3 || id == 5:
+				o.T = 2
+				o.Assoc = (id - 1) / 2
+				if g.r.p(60) {
+					o.Exp = int64(1 + g.r.n(4)) // the lock expires while the history runs
+				}
+			case id == 4 || id == 6:
+				o.T = 1
+				o.Assoc = (id - 2) / 2
 			case k%2 == 0:
 				o.T = 1
 			default:
 				o.T = 2
 			}
-			if o.T != 0 {
-				// targets: mostly the low IDs, sometimes anything (locks of locks, tombstones of tombstones)
-				if g.r.p(80) {
-					o.Assoc = 1 + g.r.n(3)
+			if o.T != 0 && o.Assoc == 0 {
+				if g.r.p(70) {
+					o.Assoc = 1 + g.r.n(2)
 				} else {
 					o.Assoc = g.oid()
 				}
@@ -630,14 +643,18 @@ func (g *gen) ids() []int {
 
 func (g *gen) op() Op {
 	k := g.r.n(100)
-	putTo, markTo, inhTo, tickTo, epochTo, eventTo := 40, 52, 54, 68, 72, 76 // rest: pass
+	putTo, markTo, inhTo, tickTo, epochTo, eventTo := 42, 52, 54, 64, 68, 78 // rest: pass
 	if g.profile == "drain" {
 		putTo, markTo, inhTo, tickTo, epochTo, eventTo = 52, 70, 74, 88, 91, 94
 	}
 	switch {
 	case k < putTo:
 		c := g.cnr()
-		o := *g.cat[c][g.oid()]
+		id := g.oid()
+		if g.r.p(45) {
+			id = 1 + g.r.n(6) // the targets and their locks / tombstones
+		}
+		o := *g.cat[c][id]
 		return Op{K: "put", C: c, O: &o}
 	case k < markTo:
 		m := 0
@@ -665,7 +682,7 @@ func (g *gen) op() Op {
 		switch k := g.r.n(100); {
 		case k < 15 && e > 0:
 			e = uint64(g.r.n(int(e) + 1))
-		case k < 40:
+		case k < 55:
 			// the event is ahead of the epoch source: the GC's clock says "expired" where the metabase's does not yet
 			e += uint64(1 + g.r.n(2))
 		}
